@@ -710,7 +710,7 @@ func (r *enRun) check(when string) bool {
 		r.mu.Lock()
 		llc := r.lastLiveClose[i]
 		r.mu.Unlock()
-		if state == enNot && !got && (r.wanted[i] || r.oneshot[i]) && !p.Refuse && !enIsLiar(kind) && r.clean(i) &&
+		if state == enNot && !got && (r.wanted[i] || r.oneshot[i]) && !p.Refusing() && !enIsLiar(kind) && r.clean(i) &&
 			!now.Before(r.stableAt[i].Add(12*time.Second)) && !now.Before(llc.Add(12*time.Second)) {
 			if connected[i] == 0 {
 				return r.fail("unbanned-peer-not-reconnected", "%s: peer %d (%s) is not banned, reachable, wanted by a connection request and undisturbed since %s, but is not in Peers() at %s", when, i, kind, enVT(r.stableAt[i]), enVT(now))
@@ -1076,7 +1076,7 @@ func (r *enRun) jump(e enEvent) bool {
 	const tail = 330 * time.Second
 	if d > 3*tail {
 		for _, p := range s.Peers {
-			p.Refuse = true
+			p.SetRefuse(true)
 		}
 		bulk := d - tail
 		// in pieces: the busy-loop guard counts per quiescence wait
@@ -1091,7 +1091,7 @@ func (r *enRun) jump(e enEvent) bool {
 			bulk -= step
 		}
 		for _, p := range s.Peers {
-			p.Refuse = false
+			p.SetRefuse(false)
 		}
 		// After a day of refused dials the retry interval is at its cap
 		// (five minutes).
